@@ -1,3 +1,4 @@
+import BigtoolsModel.AtomsRB
 import BigtoolsModel.FileOfBed
 import BigtoolsModel.FiltersGen
 import BigtoolsModel.OverlapsGen
@@ -83,3 +84,14 @@ theorem C04_source_filter_is_bedKeep (qs qe : Nat) (x : Entry) : Gen.bed_keep x.
   gen_bed_filter qs qe x
 
 end BBI
+
+/-- **Tie to the source: every block of a well-formed file is fetched, however well it compresses** (bigBed range queries). The reader theorems
+    take `inflate` as a total function; the real `zlib_decompress` fails when the block inflates to more than the buffer it is given.
+    With the lengths `read_block_data` uses — regenerated from bbiread.rs on every run: `block.size` bytes read, a buffer of exactly
+    the header's `uncompress_buf_size` — a block holding `deflate x` with `|x| ≤ uncompress_buf_size` (what both well-formedness
+    judges require of every block) is fetched as `x`, for every codec and every compressed size; an uncompressed file's block is
+    the bytes themselves. -/
+theorem C04_source_block_fetch (z : BBI.Zlib) (ubs : Nat) (l x : List Nat) (off : Nat) (hx : x.length ≤ ubs) :
+    (0 < ubs → BBI.Has l off (z.deflate x) → RB.fetch z ubs l ⟨off, (z.deflate x).length⟩ = some x) ∧
+    (BBI.Has l off x → RB.fetch z 0 l ⟨off, x.length⟩ = some x) :=
+  ⟨fun hu h => RB.fetch_compressed z ubs l x off hu hx h, fun h => RB.fetch_raw z l x off h⟩
